@@ -34,10 +34,10 @@ JOBS = {
     "quick": {"dag5": (5, 3, "dag", 0, ONE), "dag4x": (4, 3, "dag", 0, ONE), "dag4": (4, 3, "dag", 1, ONE), "dag3": (3, 3, "dag", 2, ONE), "free3": (3, 3, "free", 0, ONE),
               "free3m": (3, 2, "free", 1, ONE), "self2": (2, 3, "self", 1, ONE), "split4": (4, 3, "dag", 0, SPLIT), "split3": (3, 3, "dag", 1, SPLIT),
               "splitfree3": (3, 2, "free", 0, SPLIT), "spell4": (4, 3, "dag", 0, SPELL), "spell3": (3, 3, "dag", 1, SPELL),
-              "del3": (3, 3, "dag", 1, ONE, True), "ext3": (3, 3, "ext", 1, ONE), "ext4": (4, 2, "ext", 0, ONE)},
+              "del3": (3, 3, "dag", 1, ONE, True), "ext3": (3, 3, "ext", 1, ONE), "ext4": (4, 2, "ext", 0, ONE), "imp3": (3, 3, "dag", 1, ONE, False, True)},
     "thorough": {"dag5": (5, 3, "dag", 1, ONE), "dag4": (4, 3, "dag", 2, ONE), "free3": (3, 3, "free", 1, ONE), "free4": (4, 2, "free", 0, ONE),
                  "self3": (3, 2, "self", 1, ONE), "split4": (4, 3, "dag", 1, SPLIT), "splitfree3": (3, 2, "free", 1, SPLIT),
-                 "spell4": (4, 3, "dag", 1, SPELL), "del4": (4, 3, "dag", 1, ONE, True), "ext4": (4, 3, "ext", 1, ONE)},
+                 "spell4": (4, 3, "dag", 1, SPELL), "del4": (4, 3, "dag", 1, ONE, True), "ext4": (4, 3, "ext", 1, ONE), "imp4": (4, 3, "dag", 1, ONE, False, True), "imp3": (3, 3, "dag", 2, ONE, False, True)},
 }
 SIM = (6, 3, "dag", 1, ONE)
 
@@ -66,7 +66,8 @@ def expected_cases(job: tuple) -> int:
     n, nmem, layouts = job[0], job[3], job[4]
     per_layout = sum(1 if lay in ("one", "sub") else n - 1 for lay in layouts)  # split points
     dels = n * nmem if len(job) > 5 and job[5] else 1                             # one `del cls[name]` per class x name
-    return expected_hierarchies(job) * per_layout * (2 ** nmem) ** n * dels
+    per_name = 3 if len(job) > 6 and job[6] else 2                               # absent / defined (/ imported) per class x name
+    return expected_hierarchies(job) * per_layout * (per_name ** nmem) ** n * dels
 
 
 # every action of the machine must fire somewhere in a tier (vacuity)
@@ -115,12 +116,12 @@ def _work(task):
 
 
 def case_id(case: dict) -> dict:
-    return {k: case[k] for k in ("n", "domain", "bases", "layout", "cut", "has", "delop") if k in case}
+    return {k: case[k] for k in ("n", "domain", "bases", "layout", "cut", "has", "kind", "delop") if k in case}
 
 
 def case_key(case: dict) -> str:
     d = case.get("delop") or {}
-    return json.dumps([case["domain"], case["bases"], case["layout"], case["cut"], case["has"], d.get("cls", 0), d.get("name", "")])
+    return json.dumps([case["domain"], case["bases"], case["layout"], case["cut"], case["has"], d.get("cls", 0), d.get("name", ""), case.get("kind")])
 
 
 def nontrivial(case: dict) -> bool:
@@ -290,7 +291,7 @@ def _run_tier(run: Run, tier: str, jobs: dict, pool, rnd):
         insp: list = []
         with ThreadPoolExecutor(max_workers=2) as tp:
             fsim = tp.submit(tlc.run, "C3", "C3_jobs.cfg", workers=2, constants={"JOBS": "SimJobs"}, simulate="num=6000", depth=4000, seed=SEED + 7, timeout=3000, heap="6g")
-            order = ["dag5", "dag4", "free3", "free4", "self3", "split4", "splitfree3", "spell4", "del4", "ext4"]
+            order = ["dag5", "dag4", "free3", "free4", "self3", "split4", "splitfree3", "spell4", "del4", "ext4", "imp4", "imp3"]
             nxt = tp.submit(tlc_job, "T_" + order[0], 8)
             for i, name in enumerate(order):
                 res = nxt.result()
